@@ -6,7 +6,7 @@ from runner import Case
 from props import _dag_util as U
 
 THEOREMS = [
-    "C16.dag_iter_edges", "C16.dag_iter_mem", "C16.dag_iter_nodup", "C16.fuel_suffices",
+    "C16.dag_iter_edges", "C16.dag_iter_edges_connected", "C16.dag_iter_mem", "C16.dag_iter_nodup", "C16.fuel_suffices",
     "C16.ancestors_eq_reach", "C16.descendants_eq_reach", "C16.siblings_eq",
     "C16.go_to_all_paths", "C16.go_to_refused_iff",
 ]
